@@ -87,6 +87,10 @@ def run_case(case, ctx):
     else:
         opts['flat_template'] = bool(rng.random() < 0.25)       # a template without any signal (all zero / all NaN in the file)
     spec = random_spec(rng, **opts)
+    if case['seed'][-1] % 4 == 2:
+        # one template seven orders of magnitude larger than the others (what counts as 'no signal' is per template)
+        spec.templates[int(rng.integers(0, spec.n_templates))] *= spec.templates.dtype.type(1e7)
+        opts['one_huge_template'] = True
     if case['seed'][-1] % 4 == 1:
         spec.notes['template_scaling'] = [2.5, 0.5][case['seed'][-1] % 8 == 1]      # every unwhitened waveform carries this factor, once
     if case['seed'][-1] % 3 == 1:
